@@ -1788,12 +1788,20 @@ fn oracle(c: &Case, t: &Trace) -> String {
         }
     }
     // O5 linearizability of the client-visible history
+    // A call without a result (it failed or its future was dropped) may or may not have taken effect as far as
+    // its caller knows.  The target's log knows: a call that was never applied there had no effect, so it need
+    // not be offered to the checker as a call that might have (every such call doubles the checker's search;
+    // leaving it out only makes the question stricter: the results must be explained without it).
+    let no_effect = |i: u32| {
+        let k = &calls[i as usize];
+        k.applied.is_empty() && !matches!(k.ret.first(), Some((_, Some(_))))
+    };
     let mut hist: Vec<u128> = Vec::new();
     for e in &t.log {
         match *e {
-            Ev::Inv { id, meth, x, .. } => hist.extend([0, id as u128, meth as u128, x as u128, 0]),
+            Ev::Inv { id, meth, x, .. } if !no_effect(id) => hist.extend([0, id as u128, meth as u128, x as u128, 0]),
             Ev::RetVal(i, v) => hist.extend([1, i as u128, 0, 0, v as u128]),
-            Ev::RetErr(i, _) => hist.extend([2, i as u128, 0, 0, 0]),
+            Ev::RetErr(i, _) if !no_effect(i) => hist.extend([2, i as u128, 0, 0, 0]),
             _ => {}
         }
     }
